@@ -212,10 +212,11 @@ class Cache:
             res.is_filtered = False
 
         elif isinstance(node, verbs.SubqueryMarker):
+            # (the columns point at the marker: they are plain columns of a subquery)
             res.cols = {
                 uid: Col(
                     col.name,
-                    node.child,
+                    node,
                     uid,
                     types.without_const(col._dtype),
                     Ftype.ELEMENT_WISE,
